@@ -70,13 +70,24 @@ Definition tree_origin (t : wtree) (id : Z) : option (Z * Z) :=
   | None => None
   end.
 
+(* the window and everything above it are visible *)
+Definition path_visible (t : wtree) (id : Z) : bool :=
+  match t_path id t with
+  | Some p => forallb (fun w => w_vis (t_info w)) p
+  | None => true
+  end.
+
 (* events sent to the drag source directly, at the position relative to it *)
 Definition to_source_spec (claims : Z -> Z) (t : wtree) (src : option Z) (ty btn line col : Z) : list iev :=
   match src with
   | None => []
   | Some s =>
     match t_find s t, tree_origin t s with
-    | Some sub, Some o => fst (mouse_phase claims (mouse_order sub (line - fst o) (col - snd o)) ty btn)
+    | Some sub, Some o =>
+      (* hidden windows and their descendants receive no input: not below a hidden window *)
+      if path_visible t s
+      then fst (mouse_phase claims (mouse_order sub (line - fst o) (col - snd o)) ty btn)
+      else []
     | _, _ => []
     end
   end.
@@ -128,6 +139,17 @@ Fixpoint ievs_eqb (a b : list iev) : bool :=
   end.
 
 Definition iev_win (e : iev) : Z := match e with IKey w => w | IMouse w _ _ _ _ => w end.
+
+(* A handler of window [w] closes a window whose subtree [closed] does not contain [w]: from w's
+   own delivery on, nothing in this event goes to a window of that subtree (they are out of the
+   tree, and none of them has a dispatch under way) *)
+Fixpoint c14_closed_silent_checkb (w : Z) (closed : list Z) (log : list iev) : bool :=
+  match log with
+  | [] => true
+  | e :: r => if iev_win e =? w then forallb (fun e' => negb (id_in (iev_win e') closed)) r
+              else c14_closed_silent_checkb w closed r
+  end.
+
 
 (* with a mutation inside a handler: the deliveries to the windows that were NOT closed must
    be the ones of the unmutated order, in that order *)
